@@ -23,3 +23,8 @@ g++ -std=c++14 -I $WT/include $OUT/demo.cpp -o $WT/demo_$N 2>>$DEST/demo_build.l
 cp $OUT/patch.diff $OUT/demo.cpp $DEST/; cp $OUT/README.md $DEST/README.md 2>/dev/null
 echo "build rc=$BRC ctest rc=$TRC ($SUITE) demo_with rc=$DW demo_without rc=$DO" | tee -a $DEST/summary.txt
 rm -f $WT/demo_$N
+# trim logs
+rm -f $DEST/build.log $DEST/demo_build.log
+for f in $DEST/check_*.log; do head -c 6000 $f > $f.t && mv $f.t $f; done
+tail -5 $DEST/ctest.log > $DEST/ctest.t && mv $DEST/ctest.t $DEST/ctest.log
+for f in $DEST/demo_with.log $DEST/demo_without.log; do head -c 3000 $f > $f.t && mv $f.t $f; done
